@@ -30,14 +30,26 @@ impl InMessage {
             Message::Text(text) => {
                 let mut text: Vec<u8> = text.as_bytes().to_owned();
 
+                Self::check_nesting(&text)?;
+
                 ::simd_json::serde::from_slice(&mut text).context("deserialize with serde")
             }
             Message::Binary(bytes) => {
                 let mut bytes = bytes.to_vec();
 
+                Self::check_nesting(&bytes)?;
+
                 ::simd_json::serde::from_slice(&mut bytes[..]).context("deserialize with serde")
             }
             _ => Err(anyhow::anyhow!("Message is neither text nor binary")),
+        }
+    }
+
+    fn check_nesting(bytes: &[u8]) -> ::anyhow::Result<()> {
+        if crate::common::json_nesting_within_limit(bytes) {
+            Ok(())
+        } else {
+            Err(anyhow::anyhow!("Message is nested too deeply"))
         }
     }
 }
